@@ -51,6 +51,10 @@ type Broker struct {
 	Svc     *broker.Service
 	Cipher  license.Cipher
 	dir     string
+	lic     string
+	matcher string
+	node    string
+	store   string
 	Clients map[string]*Client
 }
 
@@ -71,11 +75,28 @@ func New(lic, matcher, node, storeName string) *Broker {
 	if err != nil {
 		panic(err)
 	}
-	return &Broker{Svc: svc, Cipher: c, dir: dir, Clients: map[string]*Client{}}
+	return &Broker{Svc: svc, Cipher: c, dir: dir, lic: lic, matcher: matcher, node: node, store: storeName, Clients: map[string]*Client{}}
+}
+
+// Restart closes the service (all connections are dropped first) and creates a new one on
+// the same state directory.
+func (b *Broker) Restart() {
+	b.stop()
+	svc, err := broker.VerifNewBroker(b.lic, b.matcher, b.dir, b.node, b.store, b.dir+"/store")
+	if err != nil {
+		panic(err)
+	}
+	b.Svc = svc
+	b.Clients = map[string]*Client{}
 }
 
 // Close stops the broker and removes its directory.
 func (b *Broker) Close() {
+	b.stop()
+	os.RemoveAll(b.dir)
+}
+
+func (b *Broker) stop() {
 	for _, c := range b.Clients {
 		c.conn.Close()
 	}
@@ -86,7 +107,6 @@ func (b *Broker) Close() {
 	}
 	b.Settle()
 	b.Svc.Close()
-	os.RemoveAll(b.dir)
 }
 
 // MintKey encrypts a key built from explicit fields.
